@@ -8,6 +8,24 @@ CLAIMS = {
    note="Trusted: go/ssa as Go semantics, the SMT solvers, the engine's SSA semantics; eq/less are pure functions (declared puretype); ordered(tokenEqual, tokenLess) is a separate lemma (see evidence: known findings).",
    ref="6/C20"),
 }
+CLAIMS.update({
+ "C14": dict(
+   text="Deductive proof that type equivalence is lawful: GetUnderlying/Equal/IsNumeric/IsList/Cast*/TrueUnderlying/ParamTypesEqual are proved against the specification function norm (alias-transparent, definition-opaque normal form), and reflexivity, symmetry, transitivity, alias transparency (also under lists and behind aliases), typedef opacity and identity are proved as lemmas from these contracts for all types. The agreement of initialisation and assignment positions in the typechecker is not yet under contract.",
+   note="Trusted: norm/tnorm/rank axioms (recursive definition by cases; type graphs acyclic; rank(norm t) <= rank t), immutability of type graphs, go/ssa, SMT solvers.",
+   ref="6/C14"),
+ "C16": dict(
+   text="Partial. Deductive proof that the comparators handed to sort.Slice at the anchored sites (imported declarations by position; alias candidates) compute a specified key order and that this order is a strict weak order, total on distinct positions, so the sorted result does not depend on map iteration order. Order-independence of the range-over-map loops is not decided.",
+   note="Trusted: sort.Slice is deterministic for a strict weak order; interface accessors GetRange/GetTokens/GetArgs are pure; the inner fold countRefAndGenericArgs is an assumed contract.",
+   ref="6/C16"),
+ "C09": dict(
+   text="Partial. Deductive proof that the candidate comparator of sortAliases orders by (pattern length descending, generic parameters ascending, reference parameters descending) as the statement prescribes, and that this order is a strict weak order (lemmas). Candidate selection loop, argument binding by name and operator overload lookup are not yet under contract.",
+   note="Trusted: GetTokens/GetArgs pure; the fold countRefAndGenericArgs (assumed contract: counts top-level generic parameters - known limitation F-09).",
+   ref="6/C09"),
+ "C06": dict(
+   text="Partial (code-generator side, list indexing). The functions that emit the list index check (rvalue: VisitBinaryExpr/BIN_INDEX; assignment target, Referenz argument and nested indexing: evaluateAssignableOrReference) are executed symbolically as real code under trusted contracts on the llir builder API that give each emitted instruction its LLVM meaning (IR-denotation layer). Proved for all 2^64 index values and all lengths >= 0: ddp_runtime_error is reached exactly when !(1 <= i <= len) with len the list's length field, the element address is computed only under 0 <= i-1 < len, and code after the check runs only on the in-range path. Text indexing in the C runtime, slicing, Variable casts and '...' are not yet under contract.",
+   note="Trusted: ~20 llir builder contracts (LLVM LangRef semantics), loadStructField/addTemporary frames, IR type descriptor accessors, 'den(zero)=0', immutability of the AST and of package-level IR handles during code generation.",
+   ref="6/C06"),
+})
 NA = {
  "C08": "relational whole-program property (no holder observes another holder's mutation); no function contract within reach states it; the local copy/claim mechanics are covered under C05/C18 where claimed",
  "C11": "observational equivalence of executables across -O levels and link modes quantifies over LLVM's pass pipeline (cgo, external); no contract within reach expresses it",
